@@ -30,7 +30,7 @@ def mc_edge(run, name, **c):
     consts = dict(MaxPasses=6, N=c['N'], P=c['P'], WD=c['WD'], Shapes=set(c['shapes']), ResetVals=set(c['rvs']),
                   Gated=c['gated'], InVecs='{' + ', '.join('<<' + ', '.join(map(str, v)) + '>>' for v in c['invecs']) + '}',
                   MaxCycles=c['cycles'], MaxN=c.get('maxn', 2), Emit=True, EmitMod=c.get('mod', 1))
-    res = run_model('MC_Edge', consts, run.scratch / name, invariants=INVS, view='View', timeout=3000)
+    res = run_model('MC_Edge', consts, run.scratch / name, invariants=INVS, view='View', timeout=6000)
     if res.violated:
         raise MachineryError('MC_Edge: invariant %s violated in the model\n%s' % (res.violated, res.trace[-1][1] if res.trace else ''))
     run.add_tlc(res)
@@ -221,11 +221,11 @@ def check(run):
         recs = mc_edge(run, 'e1', N=2, P=1, WD=2, shapes=['Reg', 'RegE', 'RegR', 'RegER', 'Not', 'And2'], rvs=[0, 3],
                        gated=False, invecs=[[0], [1], [2], [3]], cycles=3, mod=8)
         replay_records(run, recs, 1, 2, 'mc-edge-2')
-        recs = mc_edge(run, 'e2', N=3, P=1, WD=1, shapes=['Reg', 'RegE', 'And2'], rvs=[0, 1], gated=False,
-                       invecs=[[0], [1]], cycles=2, mod=24)
+        recs = mc_edge(run, 'e2', N=3, P=1, WD=1, shapes=['Reg', 'RegE', 'And2'], rvs=[0], gated=False,
+                       invecs=[[0], [1]], cycles=2, mod=16)
         replay_records(run, recs, 1, 1, 'mc-edge-3')
         recs = mc_edge(run, 'e3', N=2, P=2, WD=1, shapes=['Mem', 'Reg', 'RegE', 'Seq'], rvs=[0, 1], gated=False,
-                       invecs=[[0, 0], [1, 0], [0, 1], [1, 1]], cycles=3, maxn=2, mod=32)
+                       invecs=[[0, 0], [1, 0], [0, 1], [1, 1]], cycles=2, maxn=2, mod=12)
         replay_records(run, recs, 2, 1, 'mc-edge-mem')
         recs = mc_edge(run, 'e4', N=3, P=1, WD=1, shapes=['Reg', 'Not'], rvs=[0, 1], gated=True,
                        invecs=[[0], [1]], cycles=2, maxn=2, mod=16)
